@@ -1182,8 +1182,9 @@ func guardEdges(fn *ssa.Function, p condPred) []edge {
 						if j == i {
 							continue
 						}
-						b, isC := constBoolVal(o)
-						if !isC || (s == 0 && !b) || (s == 1 && b) {
+						// [true.., b] with the predicate on b's true edge and [false.., b] with it on b's false edge are the
+						// over-approximated forms; [false.., b] / true edge and [true.., b] / false edge are exact
+						if _, isC := constBoolVal(o); !isC {
 							okForm = false
 						}
 					}
